@@ -185,7 +185,12 @@ func runChunkCase(c *engine.Ctx, cc chunkCase) {
 		pi := 0
 		for i := 0; i <= len(entries); i++ {
 			for pi < len(pos) && pos[pi] == i {
-				list = append(list, foreignPool[rng.Intn(len(foreignPool))])
+				f := foreignPool[rng.Intn(len(foreignPool))]
+				if rng.Intn(3) == 0 {
+					// unrelated names that merely contain the prefix somewhere after their first byte
+					f = []string{"x-" + cc.Prefix + "00-ZZZZ", "proxy/" + cc.Prefix, "alt:" + cc.Prefix + "v2", "-" + cc.Prefix + "01-"}[rng.Intn(4)]
+				}
+				list = append(list, f)
 				pi++
 			}
 			if i < len(entries) {
